@@ -11,6 +11,9 @@
 pub mod sync {
     //! everything `std::sync` offers, as modelled by shuttle (Arc/Weak are std's)
     pub use shuttle::sync::*;
+    // not modelled by shuttle; std's versions are usable because all simulated tasks share one
+    // OS thread and initialisation closures in this code base do not block
+    pub use std::sync::{LazyLock, OnceLock};
 }
 
 pub mod thread {
